@@ -196,7 +196,7 @@ def replay(prop_id, relations, path, wd):
 
 def decide(prop_id, relations, tier, seed, wd):
     t0 = time.time()
-    for old in glob.glob(os.path.join(C.VERIF, 'replays', prop_id + '_*.json')):
+    for old in glob.glob(os.path.join(C.OUTROOT, 'replays', prop_id + '_*.json')):
         os.unlink(old)
     ctx = Ctx(prop_id, tier, seed)
     runner = C.CoqRunner(wd)
